@@ -388,7 +388,8 @@ class Arith(object):
                 return x * (1 << b)
             if isinstance(a, int) and a == 1:
                 return pow2_term(y, self.oblige)
-            raise EngineError("symbolic shift amount on Int (use the bit-vector model)")
+            # x << n == x * 2**n (exact on mathematical integers; n within the modelled range)
+            return x * pow2_term(y, self.oblige)
         if op == '>>':
             if isinstance(b, int):
                 if b < 0:
@@ -676,6 +677,7 @@ def pow2_term(e, oblige, limit=80):
     """2**e for an Int term e with 0 <= e <= limit: ite chain (exact)."""
     e = to_int_term(e)
     oblige('ValueError', e >= 0)
+    oblige('model-limit-shift-amount', e <= limit)      # (the chain below is exact only up to the limit: beyond it nothing is claimed)
     r = z3.IntVal(1 << limit)
     for k in reversed(range(limit)):
         r = z3.If(e == k, z3.IntVal(1 << k), r)
